@@ -38,10 +38,10 @@ def generated_configs(n, seed):
         cfg = {"simulation": {"markets": list(names), "agents": ["F", "MM"], "sessions": [], "fundamentalCorrelations": {"pairwise": []}}}
         for j, nme in enumerate(names):
             cfg[nme] = {"class": "Market", "tickSize": rng.choice([0.01, 0.00001, 1.0]), "marketPrice": 300.0 + 10 * j,
-                        "fundamentalVolatility": rng.choice([0.0, 0.001, 0.01]), "fundamentalDrift": rng.choice([0.0, 0.0001]),
+                        "fundamentalVolatility": rng.choice([0.0, 0.001, 0.01, 0.005]), "fundamentalDrift": rng.choice([0.0, 0.0001]),
                         "outstandingShares": 1000}
         vol_names = [x for x in names if cfg[x]["fundamentalVolatility"] > 0]
-        if len(vol_names) >= 2:
+        if len(vol_names) >= 2 and i % 2 == 0:
             cfg["simulation"]["fundamentalCorrelations"]["pairwise"].append([vol_names[0], vol_names[1], rng.choice([0.5, -0.3, 0.9])])
         allm = list(names)
         if nm >= 2 and rng.random() < 0.6:
